@@ -26,6 +26,7 @@ pub mod c26;
 pub mod c27;
 pub mod c28;
 pub mod c29;
+pub mod c30;
 pub mod progdoc;
 pub mod util;
 
@@ -56,6 +57,7 @@ pub fn all() -> Vec<PropertyDef> {
         c27::def(),
         c28::def(),
         c29::def(),
+        c30::def(),
     ]
 }
 
